@@ -10,7 +10,15 @@ as well.
 Oracle (independent of the model): from the script alone compute what a client must see — status,
 field list (line breaks / NUL / VT / FF in values read as a space, names case-insensitive, invalid names
 refused when set), body = concatenation of the writes (none for HEAD / 204 / 304) — and compare with
-what h11 read from the bytes the real server wrote.
+what h11 read from the bytes the real server wrote.  "Invalid name" is evaluated byte by byte (every byte a
+tchar, at least one byte) — no regular expression, so the oracle shares no `$` / `.` / re.match reading with
+any implementation of `_istoken`.
+
+Header names are generated as: valid (several spellings), "almost tokens" (a valid token with ONE foreign
+piece — LF, CR, CRLF, LF LF, SP, HTAB, ':', NUL, VT, FF, FS..US, NEL, NBSP, DEL, 8-bit, delimiters, any other
+non-tchar byte; for text also non-Latin-1 code points — at its END, at its start or inside), and plainly bad
+ones; through setHeader, addRawHeader, setRawHeaders (0..3 values) and removeHeader, as bytes and as text.
+Every non-tchar byte is swept through the three positions deterministically on every run.
 """
 import re
 import warnings
@@ -20,20 +28,29 @@ from twisted.internet.testing import StringTransport
 from twisted.web import http
 from twisted.web.http_headers import _nameEncoder, _sanitizeLinearWhitespace
 
-HEADLINE = "TwistedProps.C20.emits_one_wellformed_response"
+HEADLINE = "TwistedProps.C20.emits_one_wellformed_response_any_history"
 RULE = ("scripts = request context (HTTP/1.0|1.1, GET|HEAD, Connection: close or not) + setResponseCode (table "
-        "reason or hostile reason bytes) + 0..4 setHeader/addRawHeader (valid, case-variant, special-cased and invalid "
-        "names as bytes or text; values over an alphabet rich in CR, LF, NUL, VT, FF, HTAB, ';', ':', 0x7f-0xff, "
-        "non-ASCII and astral code points, lone surrogates) + 0..2 addCookie with random attributes + 0..4 writes "
-        "(sizes around 0/1/15/16/17/255/256, bytes 0..255, chunk-framing look-alikes) + finish; truthful, false or "
-        "absent Content-Length; some scripts interleave or continue after finish; plus direct _sanitizeLinearWhitespace "
-        "and header-name cases; distinct = (version, method, status class, framing, which hostile bytes occurred "
-        "where, which operations were refused, #headers, #cookies, #writes)")
+        "reason or hostile reason bytes) + 0..4 setHeader/addRawHeader/setRawHeaders(0..3 values) + removeHeader (names as "
+        "bytes or text: valid, case-variant, special-cased; ALMOST-TOKENS = a valid token with one foreign piece (LF 30 %, "
+        "CR, CRLF, LF LF, SP, HTAB, ':', NUL, VT, FF, FS..US, NEL, NBSP, DEL, 8-bit, delimiters, any non-tchar byte, "
+        "non-Latin-1 code points) at its end (55 %), start or inside, ~20 % of all names; plainly invalid names; the same "
+        "name again in another spelling / with a foreign piece; values over an alphabet rich in CR, LF, NUL, VT, FF, "
+        "HTAB, ';', ':', 0x7f-0xff, non-ASCII and astral code points, lone surrogates, and plain values with exactly one "
+        "hostile piece at their end/start) + 0..2 addCookie with random attributes + 0..4 writes (sizes around "
+        "0/1/15/16/17/255/256, bytes 0..255, chunk-framing look-alikes) + finish; truthful (with line breaks / blanks "
+        "around the digits), false or absent Content-Length; 12 % of scripts move set-up calls between the writes / after "
+        "finish; every run starts with a deterministic sweep: each of the 179 non-tchar bytes at the end, start and inside "
+        "of a valid name (bytes and text) through _nameEncoder.encode, and 270 whole responses with LF/CR/CRLF/… in those "
+        "places through setHeader/addRawHeader/setRawHeaders/removeHeader; plus direct _sanitizeLinearWhitespace cases; "
+        "distinct = (version, method, status class, framing, which hostile bytes occurred where, which operations were "
+        "refused, class of each non-token name (where the foreign piece sits, what it is), #writes)")
 ASSUMES = [
     "the status code in force at the first write is a final status code 200..999 (three digits; 1xx are interim responses)",
     "the application does not set Transfer-Encoding itself; a Content-Length it sets is a single decimal value equal to "
     "the number of body bytes it writes (any decimal value for HEAD / 204 / 304)",
     "Request.setETag / setLastModified are not used (etag and lastModified stay None); no producer is registered",
+    "headers are set through Request.setHeader and responseHeaders.addRawHeader / setRawHeaders / removeHeader with str or "
+    "bytes arguments (not by writing into Headers._rawHeaders, not with other argument types)",
     "cookies added with addCookie replace a Set-Cookie header set directly (documented behaviour of Request.write)",
     "cookie values are compared as cookie-pairs: SP/HTAB next to '=' and ';' and at the ends are not significant",
     "field values are compared without leading/trailing SP/HTAB (RFC 9110 §5.5: not part of the value)",
@@ -43,10 +60,18 @@ TRUSTED = ["h11 0.16 as the independent HTTP/1.1 parser", "twisted.internet.test
            "hand-written Lean reference parser Rfc9112.parseResponse (tied to h11 on every emitted response)"]
 MANIFEST = {
     "text": "Lean theorems (TwistedProps/C20.lean): for every request context, every history of setResponseCode/"
-            "setHeader/addRawHeader/addCookie calls with arbitrary bytes/text arguments, every list of writes and finish, "
+            "setHeader/addRawHeader/setRawHeaders/removeHeader/addCookie calls with arbitrary bytes/text arguments, every list of writes and finish, "
             "the emitted bytes are read by the reference RFC 9112 response parser as exactly one response with that "
             "status, exactly the stored fields and the concatenated body (none for HEAD/204/304), with nothing left over; "
-            "sanitised values and reason never contain CR/LF/NUL/VT/FF; refused names leave the response unchanged. "
+            "sanitised values and reason never contain CR/LF/NUL/VT/FF. Names: a name is accepted iff it is a token (bytes, or "
+            "Latin-1 text reading as one); a token with one foreign byte/code point at its end (b'Name\\n'), start or inside "
+            "is refused by setHeader, addRawHeader, setRawHeaders and removeHeader alike, bytes or text; refused calls are "
+            "reported and leave no trace in ANY history (run = run with them deleted); every field name on the wire is a "
+            "token and no line of the head contains a CR or LF of its own. Set-up calls made between the writes (after the "
+            "head has gone out) change nothing on the wire, nor does anything called after finish: the headline "
+            "(emits_one_wellformed_response_any_history) quantifies over EVERY history pre ++ [finish] ++ tail with no finish "
+            "in pre — set-up calls and writes in any order — and reads status/reason/fields off the request as it stood at "
+            "the first write and the body off all writes. "
             "Model tied to http.py/http_headers.py by differential runs of whole scripts through a real HTTPChannel; "
             "reference parser tied to h11 on every emitted response.",
     "note": "trusts Lean kernel, the hand-written model and reference parser (both differentially tied on every run), h11",
@@ -91,6 +116,10 @@ def enc_op(op):
         return f"sc:{op[1]}:{'N' if op[2] is None else (op[2] or '-')}"
     if k in ("sh", "ah"):
         return f"{k}:{encS(op[1])}:{encS(op[2])}"
+    if k == "sr":
+        return f"sr:{encS(op[1])}:{','.join(encS(v) for v in op[2]) or '-'}"
+    if k == "rm":
+        return f"rm:{encS(op[1])}"
     if k == "w":
         return "w:" + (op[1] or "-")
     if k == "f":
@@ -153,6 +182,10 @@ def _call(req, op):
         req.setHeader(unS(op[1]), unS(op[2]))
     elif k == "ah":
         req.responseHeaders.addRawHeader(unS(op[1]), unS(op[2]))
+    elif k == "sr":
+        req.responseHeaders.setRawHeaders(unS(op[1]), [unS(v) for v in op[2]])
+    elif k == "rm":
+        req.responseHeaders.removeHeader(unS(op[1]))
     elif k == "ck":
         req.addCookie(unS(op[1]), unS(op[2]), expires=unS(op[3]), domain=unS(op[4]), path=unS(op[5]),
                       max_age=unS(op[6]), comment=unS(op[7]), secure=bool(op[8]), httpOnly=bool(op[9]),
@@ -204,7 +237,15 @@ def run_impl(c):
 # ----------------------------------------------------------------------------------------------------
 # the property, from the script alone
 
-_TOKEN = re.compile(rb"\A[!#$%&'*+\-.^_`|~0-9A-Za-z]+\Z")
+# RFC 9110 §5.6.2: token = 1*tchar.  Evaluated byte by byte (no regular expression: `$`, `\Z`, re.match
+# vs. re.fullmatch and "." each have their own reading of a trailing line feed).
+_TCHAR = frozenset(b"!#$%&'*+-.^_`|~0123456789ABCDEFGHIJKLMNOPQRSTUVWXYZabcdefghijklmnopqrstuvwxyz")
+
+
+def _is_token(x):
+    return len(x) > 0 and all(ch in _TCHAR for ch in x)
+
+
 _BREAK = re.compile(rb"\r\n|\r|\n|\x00|\x0b|\x0c")
 _DEC = re.compile(rb"\A[0-9]+\Z")
 
@@ -234,7 +275,7 @@ def _name(x):
             x = x.encode("latin-1")
         except UnicodeEncodeError:
             return None
-    return x.lower() if _TOKEN.match(x) else None
+    return x.lower() if _is_token(x) else None
 
 
 def expected(c):
@@ -270,6 +311,18 @@ def expected(c):
                 hdrs[n] = [v]
             else:
                 hdrs.setdefault(n, []).append(v)
+        elif k == "sr":
+            n, vs = _name(unS(op[1])), [_bytes_value(unS(v)) for v in op[2]]
+            if n is None or any(v is None for v in vs):
+                refused.add(i)
+            elif vs:
+                hdrs[n] = vs
+            else:
+                hdrs.pop(n, None)           # a name with no values is a name that is not sent
+        elif k == "rm":
+            n = _name(unS(op[1]))
+            if n is not None:               # (an invalid name was never set: nothing to remove, raising is allowed)
+                hdrs.pop(n, None)
         elif k == "ck":
             comps = [_bytes_value(unS(x)) if x is not None else None for x in op[1:8]]
             if any(x is not None and comps[j] is None for j, x in enumerate(op[1:8])):
@@ -344,7 +397,7 @@ def oracle(c, out):
         return None
     f = _fields(out)
     got_ref = set(int(e.split(":")[0]) for e in f["errs"].split(",")) if f["errs"] != "-" else set()
-    got_ref = {i for i in got_ref if c["ops"][i][0] in ("sh", "ah", "ck")}    # write-after-finish is not this property
+    got_ref = {i for i in got_ref if c["ops"][i][0] in ("sh", "ah", "sr", "ck")}    # write-after-finish is not this property
     if got_ref != exp["refused"]:
         return {"key": "refusal", "detail": f"operations refused {sorted(got_ref)}, expected {sorted(exp['refused'])}"}
     if not exp["wf"]:
@@ -395,6 +448,11 @@ def _hostile_where(c):
             v = _bytes_value(unS(op[2]))
             if v is not None and _BREAK.search(v):
                 where.add("value")
+        elif op[0] == "sr":
+            for x in op[2]:
+                v = _bytes_value(unS(x))
+                if v is not None and _BREAK.search(v):
+                    where.add("value")
         elif op[0] == "ck":
             for x in op[1:8]:
                 v = _bytes_value(unS(x)) if x is not None else None
@@ -453,6 +511,14 @@ def _rtext(rng, n=None):
 
 def _rval(rng):
     r = rng.random()
+    if r < 0.12:
+        v = _redge(rng)
+        if rng.random() < 0.35:
+            try:
+                return S(v.decode("utf-8"))
+            except UnicodeDecodeError:
+                return S(v.decode("latin-1"))
+        return S(v)
     if r < 0.55:
         return S(_rbytes(rng))
     if r < 0.6:
@@ -460,17 +526,77 @@ def _rval(rng):
     return S(_rtext(rng))
 
 
+# "almost tokens": a valid token with ONE foreign piece at its end, start or inside.  This is the class where
+# a validator written with a regular expression (`$` before a final LF, `.` not matching LF, re.match without
+# an end anchor), with str methods (isalnum / isprintable / strip / splitlines accept or drop more than ASCII)
+# or with a blacklist differs from "every byte is a tchar".
+TOKEN_BYTES = b"!#$%&'*+-.^_`|~0123456789ABCDEFGHIJKLMNOPQRSTUVWXYZabcdefghijklmnopqrstuvwxyz"
+NON_TCHAR = [bytes([i]) for i in range(256) if i not in TOKEN_BYTES]
+NEAR_PIECES = ([b"\n"] * 8 + [b"\r"] * 3 + [b"\r\n"] * 3 + [b"\n\n", b"\n\r", b"\r\n\n", b"\n ", b" \n"]
+               + [b" ", b" ", b"\t", b":", b":", b"\x00", b"\x0b", b"\x0c", b"\x1c", b"\x1d", b"\x1e", b"\x1f", b"\x85", b"\xa0",
+                  b"\x7f", b"\x80", b"\xff", b"(", b")", b",", b"/", b";", b"<", b"=", b">", b"?", b"@", b"[", b"\\", b"]", b"{", b"}",
+                  b'"', b"\xb2", b"\xaa", b"\xb5", b"\xe9", b"\xdf", b": x", b"\n: x", b"\r\nX-Injected"])
+# code points that only a text name can carry: not Latin-1 (must be refused), some of them alphanumeric, digits,
+# line separators for str.splitlines, or case-mapping onto ASCII (U+212A KELVIN SIGN lowers to "k", U+017F to "s")
+NEAR_TEXT = ["\u2028", "\u2029", "\u0100", "\u017f", "\u212a", "\uff21", "\uff11", "\u0661", "\u20ac", "\U0001F600", "\udc80",
+             "\ud800", "\udc0a", "\u010a", "\u0a0a"]
+
+
+def _near_token(rng, base=None):
+    """→ bytes or str: a valid token + one foreign piece (suffix 55 %, prefix 20 %, inside 25 %)"""
+    if base is None:
+        base = rng.choice(NAMES) if rng.random() < 0.8 else bytes(rng.choice(TOKEN_BYTES) for _ in range(rng.randint(1, 6)))
+    text_only = rng.random() < 0.12
+    if text_only:
+        piece = rng.choice(NEAR_TEXT)
+        base = base.decode("ascii")
+    else:
+        rp = rng.random()
+        piece = (b"\n" if rp < 0.3 else b"\r" if rp < 0.36 else b"\r\n" if rp < 0.42 else
+                 rng.choice(NEAR_PIECES) if rp < 0.9 else rng.choice(NON_TCHAR))
+    r = rng.random()
+    if r < 0.55:
+        n = base + piece
+    elif r < 0.75:
+        n = piece + base
+    else:
+        i = rng.randint(1, len(base) - 1) if len(base) > 1 else 0
+        n = base[:i] + piece + base[i:]
+    if not text_only and rng.random() < 0.4:
+        n = n.decode("latin-1")
+    return n
+
+
 def _rname(rng):
     r = rng.random()
-    if r < 0.7:
+    if r < 0.58:
         n = rng.choice(NAMES)
         return S(n if rng.random() < 0.6 else n.decode("ascii"))
-    if r < 0.8:
+    if r < 0.66:
         n = bytes(rng.choice(b"abcXYZ019-!#~_.") for _ in range(rng.randint(1, 8)))
         return S(n if rng.random() < 0.5 else n.decode("ascii"))
-    if r < 0.93:
+    if r < 0.86:
+        return S(_near_token(rng))
+    if r < 0.95:
         return S(rng.choice(BAD_NAMES))
     return S(rng.choice(BAD_TNAMES))
+
+
+EDGE = [b"\n"] * 4 + [b"\r", b"\r\n", b"\n\n", b"\r\r", b"\n\r", b"\x00", b"\x0b", b"\x0c", b" ", b"\t", b"\x1c", b"\x85", b"\xc2\x85",
+                        b"\xe2\x80\xa8"]
+
+
+def _redge(rng):
+    """a plain value with ONE hostile piece exactly at its end / start (the places `$`, strip(), splitlines()
+    and "the last line has no terminator" special-case)"""
+    core = b"".join(rng.choice(PLAIN) for _ in range(rng.choice([0, 1, 1, 2])))
+    e = rng.choice(EDGE)
+    r = rng.random()
+    if r < 0.6:
+        return core + e
+    if r < 0.85:
+        return e + core
+    return e + core + rng.choice(EDGE)
 
 
 def _rbody(rng):
@@ -500,15 +626,37 @@ def _script(rng):
             msg = None
         elif rr < 0.5:
             msg = b""
+        elif rr < 0.62:
+            msg = _redge(rng)
         else:
             msg = _rbytes(rng, hostile=0.5)
         setup.append(["sc", code, None if msg is None else msg.hex()])
     for _ in range(rng.choice([0, 1, 1, 2, 3, 4])):
-        setup.append([rng.choice(["sh", "sh", "sh", "ah"]), _rname(rng), _rval(rng)])
+        k = rng.choice(["sh", "sh", "sh", "sh", "ah", "ah", "sr"])
+        if k == "sr":
+            setup.append(["sr", _rname(rng), [_rval(rng) for _ in range(rng.choice([0, 1, 2, 2, 3]))]])
+        else:
+            setup.append([k, _rname(rng), _rval(rng)])
+    if setup and rng.random() < 0.12:
+        # the same name again, valid and almost valid, in another case / type: the name cache, replacement, removal
+        prev = [o for o in setup if o[0] in ("sh", "ah", "sr")]
+        if prev:
+            base = _name(unS(rng.choice(prev)[1]))
+            if base is not None:
+                for _ in range(rng.choice([1, 1, 2])):
+                    r2 = rng.random()
+                    n = base.upper() if r2 < 0.2 else (base if r2 < 0.4 else _near_token(rng, base))
+                    if isinstance(n, bytes) and rng.random() < 0.4:
+                        n = n.decode("latin-1")
+                    setup.append(rng.choice([["sh", S(n), _rval(rng)], ["ah", S(n), _rval(rng)], ["rm", S(n)],
+                                             ["sr", S(n), [_rval(rng) for _ in range(rng.choice([0, 1, 2]))]]]))
+    if rng.random() < 0.06:
+        setup.append(["rm", _rname(rng)])
     for _ in range(rng.choice([0, 0, 0, 1, 1, 2])):
         attrs = [(_rval(rng) if rng.random() < 0.25 else None) for _ in range(5)]
         rs = rng.random()
-        ss = None if rs < 0.6 else S(rng.choice([b"lax", b"Strict", "LAX", "strict", b"", "", b"none", "laX\n", "\udc80", b"\xff"]))
+        ss = None if rs < 0.6 else S(rng.choice([b"lax", b"Strict", "LAX", "strict", b"", "", b"none", "laX\n", "\udc80", b"\xff",
+                                                 b"lax\n", "strict\n", b"Strict\r\n", b"\nlax", b"lax ", "Lax\x85", b"lax\x00"]))
         setup.append(["ck", _rval(rng), _rval(rng)] + attrs + [int(rng.random() < 0.3), int(rng.random() < 0.3), ss])
     if rng.random() < 0.03:
         setup.append(["sh", S(b"Transfer-Encoding"), S(rng.choice([b"chunked", b"gzip", b"identity"]))])
@@ -520,21 +668,31 @@ def _script(rng):
     r = rng.random()
     if r < 0.4:
         cl = str(total).encode()
-        if rng.random() < 0.1:
-            cl = b" " + cl + b"\r\n"
+        if rng.random() < 0.2:
+            cl = rng.choice([b"", b" ", b" ", b"\t", b"\n", b"\r\n"]) + cl + rng.choice([b"\r\n", b"\n", b"\n", b"\r", b" ", b"\n ", b"\x0b"])
         setup.insert(rng.randint(0, len(setup)), ["sh", S(rng.choice([b"Content-Length", b"content-length", "Content-Length"])),
                                                   S(cl if rng.random() < 0.7 else cl.decode())])
     elif r < 0.45:
         setup.append(["sh", S(b"Content-Length"), S(rng.choice([str(total + 1).encode(), b"abc", b"", b"-1", b"1\r\n2"]))])
     ops = setup + writes + [["f"]]
     r = rng.random()
-    if r < 0.08 and len(ops) > 2:
-        # a set-up call after the headers have gone out
-        i = rng.randrange(len(setup)) if setup else 0
-        if setup:
-            ops.append(ops.pop(i)) if rng.random() < 0.5 else ops.insert(len(ops) - 1, ops.pop(i))
-    elif r < 0.14:
-        ops.append(rng.choice([["w", "6162"], ["f"], ["w", ""], ["sh", S(b"X-Late"), S(b"1")]]))
+    if r < 0.12 and len(ops) > 2 and setup:
+        # set-up calls after the head has gone out: between the writes, just before finish, or after finish
+        for _ in range(rng.choice([1, 1, 2])):
+            nset = sum(1 for o in ops[:ops.index(writes[0]) if writes else len(ops) - 1] if o[0] not in ("w", "f"))
+            if not nset:
+                break
+            op = ops.pop(rng.randrange(nset))
+            rr = rng.random()
+            if rr < 0.25:
+                ops.append(op)
+            elif rr < 0.5:
+                ops.insert(len(ops) - 1, op)
+            else:
+                ops.insert(rng.randint(min(nset, len(ops) - 1), len(ops) - 1), op)
+    elif r < 0.18:
+        ops.append(rng.choice([["w", "6162"], ["f"], ["w", ""], ["sh", S(b"X-Late"), S(b"1")], ["sh", S(b"X-Late\n"), S(b"1")],
+                               ["rm", S(b"Content-Length")], ["sr", S(b"Transfer-Encoding"), []]]))
     return {"op": "run", "v11": v11, "head": head, "close": close, "ops": ops}
 
 
@@ -563,24 +721,91 @@ def corpus():
         {"op": "run", "v11": 1, "head": 0, "close": 0, "ops": [["sh", S(b"a b"), S(b"x")], ["sh", S("Ā"), S(b"x")], ["sh", S(b"X"), S("\udc80")], ["f"]]},
         {"op": "run", "v11": 1, "head": 0, "close": 0, "ops": [["sc", 999, ""], ["w", "00" * 256], ["f"]]},
         {"op": "run", "v11": 1, "head": 0, "close": 0, "ops": []},
+        # almost-token names: a valid token + ONE trailing LF (what `[tchar]+$` with re.match lets through), bytes and
+        # text, through every call that names a header; siblings: CR, CRLF, LF LF, leading / inner LF, NEL, non-Latin-1
+        {"op": "run", "v11": 1, "head": 0, "close": 0, "ops": [["sh", S(b"X-Foo\n"), S(b"v")], ["w", "68656c6c6f"], ["f"]]},
+        {"op": "run", "v11": 0, "head": 0, "close": 0, "ops": [["sh", S("X-Foo\n"), S("v")], ["sh", S(b"Content-Length"), S(b"5")], ["w", "68656c6c6f"], ["f"]]},
+        {"op": "run", "v11": 1, "head": 0, "close": 0, "ops": [["ah", S(b"X-Foo\n"), S(b"v")], ["ah", S("X-Foo\n"), S(b"w")], ["f"]]},
+        {"op": "run", "v11": 1, "head": 0, "close": 0, "ops": [["sr", S(b"X-Foo\n"), [S(b"v"), S("w")]], ["sr", S("Set-Cookie\n"), [S(b"a=b")]], ["f"]]},
+        {"op": "run", "v11": 1, "head": 0, "close": 0,
+         "ops": [["sh", S(b"X-Foo"), S(b"kept")], ["sh", S(b"X-Foo\n"), S(b"v")], ["rm", S(b"X-Foo\n")], ["sh", S(b"x-foo\r"), S(b"v")],
+                 ["sh", S(b"X-Foo\r\n"), S(b"v")], ["sh", S(b"X-Foo\n\n"), S(b"v")], ["sh", S(b"\nX-Foo"), S(b"v")], ["sh", S(b"X-\nFoo"), S(b"v")],
+                 ["sh", S("X-Foo\x85"), S(b"v")], ["sh", S("X-Foo\u2028"), S(b"v")], ["sh", S("X-Foo\u212a"), S(b"v")], ["sh", S(b"\n"), S(b"v")],
+                 ["w", "6162"], ["f"]]},
+        {"op": "run", "v11": 1, "head": 0, "close": 0,
+         "ops": [["sh", S(b"Content-Length\n"), S(b"0")], ["sh", S(b"Transfer-Encoding\n"), S(b"chunked")], ["sh", S(b"Connection\n"), S(b"close")],
+                 ["w", "616263"], ["f"]]},
+        # setRawHeaders: several values, no value (a name without values is not sent, and counts as absent for framing), removeHeader
+        {"op": "run", "v11": 1, "head": 0, "close": 0, "ops": [["sr", S(b"X-A"), [S(b"1\n"), S("2\r\nX-Injected: yes"), S(b"\n3")]], ["w", "61"], ["f"]]},
+        {"op": "run", "v11": 1, "head": 0, "close": 0, "ops": [["sr", S(b"Content-Length"), []], ["sr", S(b"X-E"), []], ["w", "616263"], ["f"]]},
+        {"op": "run", "v11": 1, "head": 0, "close": 0, "ops": [["sh", S(b"Content-Length"), S(b"7")], ["rm", S("content-length")], ["sh", S(b"X-A"), S(b"1")],
+                                                             ["rm", S(b"x-a")], ["ah", S(b"X-A"), S(b"2")], ["w", "616263"], ["f"]]},
+        {"op": "run", "v11": 1, "head": 0, "close": 0, "ops": [["sr", S(b"X-A"), [S(b"1"), S("\udc80")]], ["sr", S(b"a b"), []], ["rm", S(b"a b")], ["rm", S("Ā")], ["f"]]},
+        # values, reason, cookie, sameSite and Content-Length ending in exactly one LF
+        {"op": "run", "v11": 1, "head": 0, "close": 0,
+         "ops": [["sc", 200, (b"OK\n").hex()], ["sh", S(b"X-A"), S(b"v\n")], ["ah", S("X-B"), S("v\n")], ["sh", S(b"Content-Length"), S(b"3\n")],
+                 ["ck", S(b"k\n"), S(b"v\n"), None, None, S(b"/\n"), None, None, 0, 0, S(b"lax\n")],
+                 ["ck", S(b"k\n"), S(b"v\n"), None, None, S(b"/\n"), None, None, 0, 0, S(b"lax")], ["w", "616263"], ["f"]]},
+        {"op": "name", "n": S(b"X-Foo\n")}, {"op": "name", "n": S("X-Foo\n")}, {"op": "name", "n": S(b"X-Foo\r\n")}, {"op": "name", "n": S(b"\n")},
+        {"op": "name", "n": S("Content-Length\n")}, {"op": "name", "n": S("X-Foo\x85")}, {"op": "name", "n": S("X-Foo\u2028")},
         {"op": "san", "x": (b"a\r\nb\rc\nd\n").hex()}, {"op": "san", "x": (b"\r\r\n\n").hex()}, {"op": "san", "x": (b"a\x00b\x0bc\x0c").hex()},
         {"op": "name", "n": S(b"content-md5")}, {"op": "name", "n": S("x-xss-protection")}, {"op": "name", "n": S(b"a b")},
     ]
 
 
+def _sweep():
+    """deterministic part of every run: EVERY byte that is not a tchar at the end, at the start and inside an otherwise
+    valid name (bytes and Latin-1 text; 179 bytes x 3 places x 2 types, direct `_nameEncoder.encode` cases: cheap), the
+    non-Latin-1 code points, and for the line-break-like ones whole responses through each naming call"""
+    for b in NON_TCHAR:
+        for n in (b"X-Foo" + b, b + b"X-Foo", b"X-" + b + b"Foo"):
+            yield {"op": "name", "n": S(n)}
+            yield {"op": "name", "n": S(n.decode("latin-1"))}
+        yield {"op": "name", "n": S(b)}
+    for t in NEAR_TEXT:
+        for n in ("X-Foo" + t, t + "X-Foo", "X-" + t + "Foo"):
+            yield {"op": "name", "n": S(n)}
+    i = 0
+    for piece in (b"\n", b"\r", b"\r\n", b"\n\n", b"\n\r", b" ", b"\t", b":", b"\x00", b"\x0b", b"\x0c", b"\x1c", b"\x85", b"\xa0", b"\xff"):
+        for base in (b"X-Foo", b"Content-Length", b"etag"):
+            for n in (base + piece, piece + base, base[:2] + piece + base[2:]):
+                for nn in (n, n.decode("latin-1")):
+                    i += 1
+                    ops = [[("sh", "ah", "sr")[i % 3], S(nn), S(b"v")]]
+                    if ops[0][0] == "sr":
+                        ops[0][2] = [S(b"v"), S("w")]
+                    if i % 2:
+                        ops.insert(0, ["sh", S(base), S(b"3")])
+                    if i % 5 == 0:
+                        ops.append(["rm", S(nn)])
+                    yield {"op": "run", "v11": int(i % 4 != 0), "head": 0, "close": 0, "ops": ops + [["w", "616263"], ["f"]]}
+
+
 def generate(rng, tier):
+    yield from _sweep()
     n = 10000 if tier == "quick" else 150000
     for i in range(n):
         r = rng.random()
-        if r < 0.86:
+        if r < 0.84:
             yield _script(rng)
-        elif r < 0.94:
-            yield {"op": "san", "x": _rbytes(rng, rng.randint(0, 9), hostile=0.7).hex()}
+        elif r < 0.91:
+            yield {"op": "san", "x": (_rbytes(rng, rng.randint(0, 9), hostile=0.7) if rng.random() < 0.7 else _redge(rng)).hex()}
         else:
             yield {"op": "name", "n": _rname(rng)}
 
 
+def _shrink_str(s):
+    if s[0] == "b":
+        b = bytes.fromhex(s[1])
+        return [["b", (b[:j] + b[j + 1:]).hex()] for j in range(len(b))]
+    return [["t", s[1][:j] + s[1][j + 1:]] for j in range(len(s[1]))]
+
+
 def shrink(c):
+    if c["op"] == "name":
+        for cand in _shrink_str(c["n"]):
+            yield {"op": "name", "n": cand}
+        return
     if c["op"] != "run":
         if c["op"] == "san":
             x = bytes.fromhex(c["x"])
@@ -601,7 +826,13 @@ def shrink(c):
             b = bytes.fromhex(op[2])
             for j in range(len(b)):
                 yield dict(c, ops=ops[:i] + [["sc", op[1], (b[:j] + b[j + 1:]).hex()]] + ops[i + 1:])
-        if op[0] in ("sh", "ah", "ck"):
+        if op[0] == "sr":
+            vs = op[2]
+            for j in range(len(vs)):
+                yield dict(c, ops=ops[:i] + [[op[0], op[1], vs[:j] + vs[j + 1:]]] + ops[i + 1:])
+                for cand in _shrink_str(vs[j]):
+                    yield dict(c, ops=ops[:i] + [[op[0], op[1], vs[:j] + [cand] + vs[j + 1:]]] + ops[i + 1:])
+        if op[0] in ("sh", "ah", "ck", "sr", "rm"):
             for pos in range(1, len(op)):
                 s = op[pos]
                 if isinstance(s, list) and len(s) == 2 and s[0] in ("b", "t"):
@@ -616,13 +847,51 @@ def shrink(c):
                         yield dict(c, ops=ops[:i] + [op[:pos] + [None] + op[pos + 1:]] + ops[i + 1:])
 
 
+def _piece_class(b):
+    if b in (b"\n", b"\r", b"\r\n"):
+        return {b"\n": "lf", b"\r": "cr", b"\r\n": "crlf"}[b]
+    if all(ch in b"\r\n" for ch in b):
+        return "breaks"
+    if any(ch in b"\r\n" for ch in b):
+        return "break+"
+    if any(ch in b"\x00\x0b\x0c\x1c\x1d\x1e\x1f\x85" for ch in b):
+        return "ctlspace"
+    if any(ch in b" \t" for ch in b):
+        return "blank"
+    if any(ch >= 0x7f for ch in b):
+        return "8bit"
+    if any(ch < 0x20 for ch in b):
+        return "ctl"
+    return "delim"
+
+
+def _name_class(s):
+    """ok | empty | nonlatin1 | almost:<where>:<what> (a token with one foreign run) | bad"""
+    x = unS(s)
+    if isinstance(x, str):
+        try:
+            x = x.encode("latin-1")
+        except UnicodeEncodeError:
+            return "nonlatin1"
+    if _is_token(x):
+        return "ok"
+    if not x:
+        return "empty"
+    bad = [i for i, ch in enumerate(x) if ch not in _TCHAR]
+    lo, hi = bad[0], bad[-1]
+    if hi - lo + 1 != len(bad) or len(bad) == len(x):
+        return "bad" if len(bad) != len(x) else "alien:" + _piece_class(x)
+    where = "end" if hi == len(x) - 1 else ("start" if lo == 0 else "mid")
+    return f"almost:{where}:{_piece_class(x[lo:hi + 1])}"
+
+
 def tag(c, out):
+    if c["op"] == "name":
+        return "name:" + c["n"][0] + ":" + _name_class(c["n"]) + (":refused" if out.startswith("!") else ":ok")
     if c["op"] == "san":
         x = bytes.fromhex(c["x"])
         return "san:" + "".join(ch for ch, b in (("r", 13), ("n", 10), ("0", 0), ("v", 11), ("f", 12)) if b in x) + \
             (":end" if x[-1:] in (b"\r", b"\n") else "")
-    if c["op"] == "name":
-        return "name:" + c["n"][0] + (":refused" if out.startswith("!") else ":ok")
     if out.startswith("!"):
         return "run:" + out
     e = expected(c)
@@ -633,9 +902,10 @@ def tag(c, out):
     framing = "chunked" if b"Transfer-Encoding: chunked\r\n" in raw else ("counted" if b"content-length" in e["headers"] else
                                                                           ("none" if e["nobody"] else "close"))
     kinds = ",".join(sorted(set(o[0] + ("!" if i in e["refused"] else "") for i, o in enumerate(c["ops"]))))
+    names = ",".join(sorted(set(nc for nc in (_name_class(o[1]) for o in c["ops"] if o[0] in ("sh", "ah", "sr", "rm")) if nc != "ok")))
     return (f"run:{'1.1' if c['v11'] else '1.0'}:{'HEAD' if c['head'] else 'GET'}:{e['status'] // 100}xx:{framing}:"
             f"{'wf' if e['wf'] else 'illformed'}{_hostile_where(c)}:{kinds}:w{min(3, sum(1 for o in c['ops'] if o[0] == 'w'))}"
-            f":closed{f['closed']}")
+            f":closed{f['closed']}" + (f":names[{names}]" if names else ""))
 
 
 def search(rng, tier, disagreeing):
